@@ -92,7 +92,8 @@ def make_optimizer(o, unopt_dag):
     name = o["name"]
     if name == "default":
         return None
-    ops = sorted(n for n in unopt_dag.nodes() if isinstance(n, str) and n.startswith("op-"))
+    # creation order (numeric suffix: the zero-padded names stop sorting lexicographically after op-999)
+    ops = sorted((n for n in unopt_dag.nodes() if isinstance(n, str) and n.startswith("op-")), key=lambda n: int(n.split("-")[1]))
 
     def pick(sel):
         return [ops[i % len(ops)] for i in sel] if ops else []
